@@ -506,8 +506,25 @@ def dot(ctx, rep, r1, r2, r3, r4, r5):
         rep.check(ok, r5, "%s `%s` is a statement of the DOT subset" % (e.where, tpl.strip()[:40]), fn,
                   "emitted fragment %r" % tpl, "the output is not in the DOT grammar", trace(e.st))
     drets = [n for n in walk_local(dotf.node) if isinstance(n, ast.Return)]
-    okd = any(isinstance(c, ast.Constant) and isinstance(c.value, str) and re.match(r"^(strict )?digraph( \w+)?\s*$", c.value)
-              for x in drets for c in ast.walk(x))
+
+    def strings_in(x):
+        """string literals of an expression, the constants of the class / module it names included"""
+        for c in ast.walk(x):
+            if isinstance(c, ast.Constant) and isinstance(c.value, str):
+                yield c.value
+            elif isinstance(c, ast.Attribute) and isinstance(c.value, ast.Name) and c.value.id in ('self', 'cls') \
+                    and dotf.cls is not None:
+                for k in dotf.cls.mro:
+                    for n in k.node.body:
+                        if isinstance(n, ast.Assign) and any(isinstance(t, ast.Name) and t.id == c.attr for t in n.targets) \
+                                and isinstance(n.value, ast.Constant) and isinstance(n.value.value, str):
+                            yield n.value.value
+            elif isinstance(c, ast.Name):
+                for n in list(dotf.module.tree.body) + list(walk_local(dotf.node)):
+                    if isinstance(n, ast.Assign) and any(isinstance(t, ast.Name) and t.id == c.id for t in n.targets) \
+                            and isinstance(n.value, ast.Constant) and isinstance(n.value.value, str):
+                        yield n.value.value
+    okd = any(re.match(r"^(strict )?digraph( \w+)?\s*$", v) for x in drets for v in strings_in(x))
     rep.check(okd, r5, "%s starts with `digraph <name>`" % dotf.qualname, dotf.qualname,
               "returns %s" % [src(x)[:80] for x in drets], "the output is not a DOT graph")
     numbering(ctx, rep, r3, em)
@@ -605,6 +622,25 @@ def numbering(ctx, rep, r3, em=None):
             if id_attr in {n.attr for n in walk_local(f.node) if isinstance(n, ast.Attribute)
                            and isinstance(n.ctx, ast.Store)}:
                 hook = m
+        # every numbering pass gives every job its id: the hook stores it unconditionally
+        if hook is not None:
+            for cls_ in [r.jobbase] + list(r.nestable):
+                hf = cls_.methods.get(hook)
+                if hf is None:
+                    continue
+                for n in walk_local(hf.node):
+                    if isinstance(n, ast.Assign) and any(isinstance(t, ast.Attribute) and t.attr == id_attr for t in n.targets):
+                        par = getattr(n, '_parent', None)
+                        cond = None
+                        while par is not None and par is not hf.node:
+                            if isinstance(par, (ast.If, ast.While, ast.Try, ast.For)):
+                                cond = par
+                            par = getattr(par, '_parent', None)
+                        rep.check(cond is None, r3, "%s:%d the id is (re)assigned on every numbering pass"
+                                  % (hf.module.relpath, n.lineno), hf.qualname,
+                                  "`%s` under `%s`" % (src(n), src(cond.test) if isinstance(cond, (ast.If, ast.While)) else 'a condition'),
+                                  "a job keeps the id of an earlier numbering: after an edit of the requirements the "
+                                  "listing shows a job numbered before its requirement, or two jobs with the same id")
         # the scheduler-side numbering takes the next free id from what each member's hook
         # returns (a nested scheduler consumes 1 + its members): it does not recompute it
         for q in sorted(numbering):
@@ -766,7 +802,9 @@ def labels_verbatim(ctx, rep, rule):
     from ..graphmodel import GraphModel
     r = ctx.roles
     p = ctx.prog
-    getters = [f for n, f in r.jobbase.methods.items() if n.startswith('_get_') and n.endswith('_label')]
+    # (methods `_get_<kind>_label()`, or the same as properties `_<kind>_label`)
+    getters = [f for n, f in r.jobbase.methods.items() if n.startswith('_') and not n.startswith('__')
+               and n.endswith('_label')]
     rep.need(rule, len(getters), 1, "label getters")
     names = {f.name for f in getters}
     hooks = ('text_label', 'graph_label')
